@@ -3,6 +3,7 @@ import Driver.OpsGen
 import Driver.OpsGenAttrs
 import XsdataModel.Gen.Derive
 import XsdataModel.Gen.Attrs
+import XsdataModel.Gen.Subst
 open Lean Proto Py Xs.Gen
 
 namespace OpsGenDerive
@@ -51,6 +52,21 @@ def run (op : String) (a : Json) : Option (Except String Json) :=
       pure <| match occurs (sites pa), occurs (sites pb) with
         | some sa, some sb => ok (jList jSite (sa ++ sb))
         | _, _ => err "LEAK:AssertionError"
+  | "gen.subst_sites" => some do
+      let pairs ← (← asArr (fld a "subs")).mapM fun j => match j with
+        | .arr #[m, h] => do pure (← asStr m, ← asStr h)
+        | _ => .error "bad substitution pair"
+      let refs ← (← asArr (fld a "refs")).mapM asStr
+      pure <| ok (jList jSite (substituteAll pairs refs (← sitesArg a)))
+  | "gen.subst_fields" => some do
+      let pairs ← (← asArr (fld a "subs")).mapM fun j => match j with
+        | .arr #[m, h] => do pure (← asStr m, ← asStr h)
+        | _ => .error "bad substitution pair"
+      let refs ← (← asArr (fld a "refs")).mapM asStr
+      -- CalculateAttributePaths, UpdateAttributesEffectiveChoice, AddAttributeSubstitutions, MergeAttributes
+      pure <| match effectiveChoice (calculatePaths (sites (← dParticle (fld a "particle")))) with
+        | some ss => ok (jList jSite (mergeDuplicates (substituteAll pairs refs ss)))
+        | none => err "LEAK:AssertionError"
   | _ => none
 
 end OpsGenDerive
